@@ -21,7 +21,7 @@ BUDGET = {'quick': 170, 'thorough': 1500}
 CHUNK = {'quick': 10, 'thorough': 40}
 CASE_TIMEOUT = 300
 REQUIRED = ['sim_pairs_with_lattice_rules', 'ode_pairs_compared', 'node_level_outputs_mapped', 'sim_pairs_compared', 'permuted_nodelists'] + ['entry:' + e for e in GRAPH_ENTRIES + SIMS]
-SCHEMES = ['perm', 'neg', 'str', 'tuple', 'mixed', 'offset', 'nested']
+SCHEMES = ['perm', 'neg', 'str', 'tuple', 'mixed', 'offset', 'nested', 'fset']
 
 
 def gen_cases(tier, seed):
@@ -41,8 +41,8 @@ def gen_cases(tier, seed):
                 c['R0'] = []
             c['full'] = (j // 3) % 2 == 0
             c['scheme'] = SCHEMES[(j + k) % len(SCHEMES)]
-            if c['scheme'] in gen.CONTAINER_LIKE and c.get('ic_container') == 'tuple':
-                c['ic_container'] = 'list'      # a tuple of nodes can itself be a node label there: 'a single node' and 'an iterable of nodes' would both fit
+            if c['scheme'] in gen.CONTAINER_LIKE and c.get('ic_container') in ('tuple', 'frozenset'):
+                c['ic_container'] = 'list'      # a tuple / frozenset of nodes can itself be a node label there: 'a single node' and 'an iterable of nodes' would both fit
             c['kind'] = 'ode'
             c['tcount'] = 7
             out.append(c)
@@ -122,6 +122,11 @@ def run_ode(case, res):
         outs.append(list(o))
     oa, ob = outs
     N = A.N
+    if A.use_rho and A.rho == 0:
+        # started exactly on the disease-free state: an unstable equilibrium whenever R0 > 1, so the curves are amplified rounding noise
+        # (summation order legitimately differs under relabelling) - nothing to compare beyond "both calls succeed"
+        bump(res, 'disease_free_starts_not_compared')
+        return
     lay = odereg.layout(name, A.full)
     if len(oa) != len(ob):
         viol(res, '%s|labels=%s|arity_differs' % (tag, case['scheme']), {})
